@@ -23,6 +23,13 @@ def gen_cases(ctx, impl, n_exec, n_any, n_text, n_bad):
     cases = []
     for _ in range(n_exec):
         cases.append(dict(flavour=rng.choice(ac.FLAVS), lines=None, prog=ag.gen_exec_prog(rng), tag="ir-exec", execute=True))
+    for _ in range(max(20, n_exec // 8)):
+        prog = ag.gen_loop0_prog(rng)
+        if rng.random() < 0.5:
+            cases.append(dict(flavour=rng.choice(ac.FLAVS), lines=None, prog=prog, tag="ir-loop-at-line-0", execute=True))
+        else:
+            cases.append(dict(flavour=rng.choice(ac.FLAVS), lines=["# NETQASM 1.0", "# APPID 0"] + ac.render_text(rng, prog),
+                              prog=prog, tag="text-loop-at-line-0", execute=True))
     for fname in ac.FLAVS:
         rows = impl.ct["flavours"][fname]["rows"]
         for _ in range(n_any):
@@ -119,6 +126,48 @@ def front_stage(ctx, impl, cases, quick):
                           f"differing, first (code {rest[0][1]}): {json.dumps(rest[0][0])[:600]}")
 
 
+def seq_stage(ctx, impl, n, prefix="seq"):
+    """sequences of subroutines on ONE application: registers and arrays persist, so registers a subroutine only
+    reads (slice bounds, indices, loop counters) carry values; every subroutine is compared with the source
+    semantics started from the state the executor was really left in"""
+    rng = ctx.rng
+    per = {f: [] for f in ac.FLAVS}
+    stats = {}
+    for _ in range(n):
+        fname = rng.choice(ac.FLAVS)
+        progs = ag.gen_sequence(rng)
+        steps, subs = [], []
+        for prog in progs:
+            out, sub = impl.assemble_ir(fname, prog)
+            steps.append(dict(prog=prog, out=out, obs=None))
+            if sub is None:
+                break
+            subs.append(sub)
+        obs = impl.execute_seq(subs, BOUND) if subs else []
+        for st, o in zip(steps, obs):
+            st["obs"] = o
+            kk = ["halted", "fault", "step-bound", "blocked-in-wait"][o["kind"]]
+            stats[kk] = stats.get(kk, 0) + 1
+        steps = steps[:max(1, len(obs) + (1 if len(obs) < len(steps) and len(obs) == len(subs) else 0))]
+        per[fname].append(dict(steps=steps, fuel=BOUND, flavour=fname))
+        ctx.note_case(("seq", fname, json.dumps(progs)), nontrivial=True)
+    bad = ac.run_sharded(ctx, ac.write_scase_file, per, 60, prefix)
+    ctx.coverage.setdefault("subroutine_sequences", {}).update(dict(sequences=n, executions=stats, differences=len(bad)))
+    n_v = 0
+    for (f, i), code in sorted(bad.items()):
+        c = per[f][i]
+        rd = dict(flavour=f, sequence=[st["prog"] for st in c["steps"]],
+                  implementation_results=[st["out"] for st in c["steps"]], executor=[st["obs"] for st in c["steps"]])
+        if code & 2:
+            n_v += 1
+            ctx.violation("a subroutine of a sequence run on one application of the real Executor does not behave like its "
+                          "source program started from the state the previous subroutines left (registers the program "
+                          "names, also those it only reads; arrays; shared memory; outcome)", rd, key=None)
+        else:
+            ctx.broken.append(f"correspondence on subroutine sequences (code {code}): {json.dumps(rd)[:600]}")
+    return n_v
+
+
 def run_impl(impl, c):
     """fill c['out'], c['obs'] from the real assembler / executor"""
     if c["lines"] is not None:
@@ -179,7 +228,10 @@ def run(ctx):
                 "wrong kinds, repeated/undefined labels; the same rendered as text with macros (keys that are prefixes of "
                 "other keys), comments, indentation, bracket args; one-edit malformed texts.  Each is assembled by the real "
                 "code and by the model (instruction lists / error class compared); executable ones run on the real Executor "
-                "(step bound %d) and are compared with the direct interpretation of the source.  non-trivial = at least one "
+                "(step bound %d) and are compared with the direct interpretation of the source; this includes loops whose label "
+                "stands in front of the very first instruction (taken backward branch to line 0) and sequences of 2..4 "
+                "subroutines on one application (registers/arrays persist; each subroutine is compared from the state the "
+                "executor was left in, incl. registers it only reads as slice bound / index / counter).  non-trivial = at least one "
                 "instruction; distinct = distinct (flavour, program/text)" % BOUND)
     impl = ac.prepare(ctx)
     if impl is None:
@@ -198,7 +250,7 @@ def run(ctx):
         for f in ag.shape_of(c["prog"]):
             feats[f] = feats.get(f, 0) + 1
         if c["obs"] is not None:
-            kk = ["halted", "fault", "step-bound"][c["obs"]["kind"]]
+            kk = ["halted", "fault", "step-bound", "blocked-in-wait"][c["obs"]["kind"]]
             kinds[kk] = kinds.get(kk, 0) + 1
         n_ins = sum(1 for x in c["prog"] if x[0] == "ins")
         ctx.note_case((c["flavour"], json.dumps(c["lines"] if c["lines"] is not None else c["prog"])), nontrivial=n_ins > 0)
@@ -222,6 +274,7 @@ def run(ctx):
     ctx.assume.append("executions start from the initial state of a fresh application; the theorem quantifies over all "
                       "start states")
     report(ctx, differing)
+    seq_stage(ctx, impl, 150 if quick else 2000)
     front_stage(ctx, impl, cases, quick)
     if ctx.broken and not ctx.violations:
         search(ctx, impl)
@@ -251,6 +304,24 @@ def replay(ctx, path):
     rec = json.load(open(path))
     rec = rec.get("replay", rec)
     impl = ac.prepare(ctx)
+    if "sequence" in rec:
+        steps, subs = [], []
+        for prog in rec["sequence"]:
+            out, sub = impl.assemble_ir(rec["flavour"], prog)
+            steps.append(dict(prog=prog, out=out, obs=None))
+            if sub is None:
+                break
+            subs.append(sub)
+        for st, o in zip(steps, impl.execute_seq(subs, BOUND) if subs else []):
+            st["obs"] = o
+        bad = ac.run_sharded(ctx, ac.write_scase_file, {rec["flavour"]: [dict(steps=steps, fuel=BOUND)]}, 60, "replay")
+        print("replay:", json.dumps(steps)[:2000], "codes:", list(bad.values()))
+        for code in bad.values():
+            if code & 2:
+                ctx.violation("a subroutine of the sequence does not behave like its source program", rec)
+            else:
+                ctx.broken.append(f"correspondence on the replayed sequence (code {code})")
+        return ctx.finish()
     c = dict(flavour=rec["flavour"], lines=rec.get("lines"), prog=rec.get("prog", []), tag="replay", execute=True)
     differing = evaluate(ctx, impl, [c], "replay")
     print("replay:", json.dumps(replay_dict(c))[:2000], "codes:", [code for _, code in differing])
